@@ -30,15 +30,18 @@ def setup(ex):
     ex.intrinsics[BW + ".c19stale"] = lambda ex_, args, ins: (dom.sym("stale%d" % len([1 for n in ex_.ctx.names if n.startswith("stale")]) + ex_.ctx.fresh_name("stale").replace("!", "_")),)
 
     def base(ex_, args, ins):
+        # every representation of an element is (x*lam, y*lam, lam): affine symbols x, y and a scaling symbol lam
         k = args[0]
-        X = dom.const(0) if zerox == k + 1 else dom.sym("X%d" % k)
-        Y = dom.sym("Y%d" % k, nonzero=True, ctx=ex_.ctx)
+        x = dom.const(0) if zerox == k + 1 else dom.sym("x%d" % k)
+        y = dom.sym("y%d" % k, nonzero=True, ctx=ex_.ctx)
         if zeroz == k + 1:
-            Z = dom.const(0)
+            X, Y, Z = dom.sym("X%d" % k), dom.sym("Y%d" % k, nonzero=True, ctx=ex_.ctx), dom.const(0)
         elif onez == k + 1:
-            Z = dom.const(1)
+            X, Y, Z = x, y, dom.const(1)
         else:
-            Z = dom.sym("Z%d" % k, nonzero=True, ctx=ex_.ctx)
+            lam = dom.sym("lam%d" % k, nonzero=True, ctx=ex_.ctx)
+            ex_.ctx.vars["lam%d" % k] = (lam.t, 0, False)
+            X, Y, Z = dom.mul(x, lam), dom.mul(y, lam), lam
         ex_.ctx.coords[k] = (X, Y, Z)
         return ((X, Y, Z),)
     ex.intrinsics[BW + ".c07base"] = base
@@ -46,7 +49,7 @@ def setup(ex):
 
 def job(op, idx, zeroz, onez, order, zerox=0):
     h = "VerifC19Batch"
-    params = {"n": len(idx), "op": op, "zeroz": zeroz, "onez": onez, "zerox": zerox, "numcpu": 2 if len(idx) > 1 else 1, "map_order": order}
+    params = {"n": len(idx), "op": op, "zeroz": zeroz, "onez": onez, "zerox": zerox, "numcpu": 2 if len(idx) > 1 else 1, "map_order": order, "fork_isone": 1 if op == 3 else 0}
     for i, k in enumerate(idx):
         params["i%d" % i] = k
     ctx, ex = D.execute(PROG, BW + "." + h, intmode="bv", params=params, setup=setup, harness_pkgs=[BW], unwind=10000, prune=False)
@@ -86,9 +89,12 @@ def job(op, idx, zeroz, onez, order, zerox=0):
                     same = a is b or ident(a.t, b.t) is True
                     obs.append(ob("element %d coordinate %s unchanged (%s)" % (k, nm, "failed call modifies nothing" if bad else "not in the list"), not same))
             else:
-                obs.append(ob("element %d normalised: Z = 1" % k, not (ident(gz.t, z3.RealVal(1)) is True)))
-                obs.append(ob("element %d normalised: X' = X/Z" % k, not (ident(gx.t, X.t / Z.t) is True)))
-                obs.append(ob("element %d normalised: Y' = Y/Z" % k, not (ident(gy.t, Y.t / Z.t) is True)))
+                for lab_, got_, want_ in (("Z = 1", gz.t, z3.RealVal(1)), ("X' = X/Z", gx.t, X.t / Z.t), ("Y' = Y/Z", gy.t, Y.t / Z.t)):
+                    if ident(got_, want_) is True:
+                        obs.append(ob("element %d normalised: %s" % (k, lab_), False))
+                    else:
+                        # not an identity: let the solver look for a concrete representation (needed for the native replay)
+                        obs.append(ob("element %d normalised: %s" % (k, lab_), got_ != want_))
     recs = D.discharge_all(ctx, extra=obs, timeout_ms=60000)
     return {"group": "%s list=%s zeroZ=%d oneZ=%d zeroX=%d order=%s" % (OPS[op], list(idx), zeroz, onez, zerox, order), "recs": recs, "info": ctx_info(ctx), "harness": h, "params": params}
 
@@ -124,7 +130,13 @@ def run(tier, seed):
     rep.assumptions = ["field operations by contract; gnark BatchInvert / FromProj executed from their SSA", "sign predicate and encodings as in C07"]
 
     def on(a, item):
-        inner = std_replay(BUILD, BW, BW + "." + item["harness"], item["params"])
+        inner0 = std_replay(BUILD, BW, BW + "." + item["harness"], item["params"])
+
+        def inner(rec):
+            from checks.c07 import PMOD
+            r2 = dict(rec)
+            r2["model"] = {k: P.real_to_mod(v, PMOD) for k, v in (rec.get("model") or {}).items() if k.startswith("lam")}
+            return inner0(r2)
         rep.add(item["group"], item["recs"], _Info(item["info"]), key_prefix=item["harness"] + OPS[item["params"]["op"]], sample=(len(rep.samples) < 8), replay=inner)
     run_jobs(rep, job, jobs, name=lambda a: "%s %s" % (OPS[a[0]], a[1:]), on_result=on)
     return rep.finish(explanation="ElementsToBytes / BatchToBytesUncompressed / BatchMapToScalarField / BatchNormalize executed from SSA on symbolic coordinates and compared position by position with the single-element methods.")
